@@ -1,6 +1,7 @@
 INIT Init
 NEXT Next
 CONSTANTS
+  EndKinds = {"commit", "rollback"}
   StepKinds <- DropKinds
   MaxSteps = 3
   Gtx = {TRUE, FALSE}
